@@ -545,9 +545,16 @@ func (r *runner) newBlock(parent int, txs []int, cbSat uint64) *blk {
 
 // deliver hands a block to the chain the way client/main.go does.
 func (r *runner) deliver(b *blk, src string) bool {
+	checker := chain.TrustedTxChecker
+	if src == "listing" {
+		// a block assembled from the listing has to pass FULL validation: the pool's shortcut ("scripts of pooled
+		// transactions were verified on entry") is switched off for it
+		chain.TrustedTxChecker = nil
+	}
 	txpool.BlockCommitInProgress(true)
 	acc, _, _ := r.n.Deliver(b.raw)
 	txpool.BlockCommitInProgress(false)
+	chain.TrustedTxChecker = checker
 	common.Last.Mutex.Lock()
 	common.Last.Block = r.n.Ch.LastBlock()
 	common.Last.Mutex.Unlock()
